@@ -768,6 +768,19 @@ func (e *Engine) execInstr(st *State, instr ssa.Instruction) {
 			st.guard("nil", sNot(sEq(x.T, "null")), in.Pos())
 		}
 		set(in, Val{K: KAddr, T: "(fld " + x.T + " " + intLit(int64(in.Field)) + ")", Ty: in.Type(), Root: x.Root, NonNil: true})
+		if top := st.frames[0].contract; top != nil && len(top.NeverReads) > 0 {
+			if n := namedOf(in.X.Type()); n != nil {
+				if stt, ok := n.Underlying().(*types.Struct); ok {
+					key := n.Obj().Name() + "." + stt.Field(in.Field).Name()
+					for _, nr := range top.NeverReads {
+						if nr == key {
+							st.addCheck(&Check{Name: fmt.Sprintf("%s.neverreads[%s]@%s", e.curFunc, key, shortPos(posStr(e, in.Pos()))), Kind: "callsonly", Goal: "false", Pos: posStr(e, in.Pos()), Tags: top.NeverTags, Func: e.curFunc,
+								Clause: "neverreads " + key + ": the field is accessed here"})
+						}
+					}
+				}
+			}
+		}
 		if len(e.guards) > 0 {
 			if n := namedOf(in.X.Type()); n != nil && n.Obj().Pkg() != nil {
 				if stt, ok := n.Underlying().(*types.Struct); ok {
